@@ -954,7 +954,7 @@ func main() {
 		}},
 		{"GenClose", func() string {
 			return effectOrder(repo, bs, "Close", "closeOrder", [][2]string{
-				{"guard", "b.isClosed()"}, {"cancel", "b.cancel()"}, {"unregister", "b.closeFunc()"},
+				{"guard", "b.isClosed()"}, {"cancel", "b.cancel()"}, {"unregister", "b.closeFunc()"}, {"releaseloop", "b.closeMainLoopSub()"},
 				{"stop", "Replicator().Stop()"}, {"unsubscribe", "b.UnsubscribeAll()"}, {"cacheclose", "b.Cache().Close()"}})
 		}},
 		{"GenConnect", func() string {
